@@ -35,6 +35,7 @@ type Env struct {
 	inOld  bool
 	errs   []string
 	allocAtEntry *Term
+	pending *[]*Term // facts about loaded values that mention quantifier-bound variables (closed off by the binder)
 }
 
 type evalErr struct{ msg string }
@@ -208,6 +209,37 @@ func (env *Env) fromObject(obj types.Object) (EVal, bool) {
 		return EVal{V: v, T: o.Type()}, true
 	}
 	return EVal{}, false
+}
+
+// loaded registers the type invariants of a value loaded from memory while evaluating a contract.
+func (env *Env) loaded(ls []leaf, v Val) {
+	bm := map[*Term]bool{}
+	bound := false
+	for _, t := range v {
+		if containsBound(t, bm) {
+			bound = true
+		}
+	}
+	if !bound {
+		env.tr.heapClosure(env.curState(), ls, v)
+		env.tr.assumeInv(ls, v)
+		return
+	}
+	if env.pending == nil {
+		return
+	}
+	f := env.f()
+	a := env.tr.get(env.curState(), "alloc")
+	for i, l := range ls {
+		switch l.kind {
+		case "ptr.reg", "sl.reg", "if.reg":
+			*env.pending = append(*env.pending, f.ULt(v[i], a))
+		}
+		if l.kind == "sl.reg" {
+			z := f.BVi(64, 0)
+			*env.pending = append(*env.pending, f.And(f.SLe(z, v[i+2]), f.SLe(v[i+2], v[i+3]), f.SLe(v[i+3], env.tr.maxLen)))
+		}
+	}
 }
 
 func (env *Env) curState() *State {
@@ -613,7 +645,9 @@ func (env *Env) field(v EVal, name string) EVal {
 			ft := st.Field(idx).Type()
 			off := env.f().AddC(cur.V[1], int64(fieldOffset(st, idx)))
 			ls := shape(ft)
-			cur = EVal{V: env.tr.loadLeaves(env.curState(), ls, cur.V[0], off), T: ft}
+			lv := env.tr.loadLeaves(env.curState(), ls, cur.V[0], off)
+			env.loaded(ls, lv)
+			cur = EVal{V: lv, T: ft}
 			continue
 		}
 		st, ok := t.Underlying().(*types.Struct)
@@ -669,7 +703,9 @@ func (env *Env) indexExpr(x *ast.IndexExpr) EVal {
 		i := env.toIndex64(idx)
 		n := int64(nleaves(u.Elem()))
 		off := f.Add(base.V[1], f.Mul(i, f.BVi(64, n)))
-		return EVal{V: env.tr.loadLeaves(env.curState(), shape(u.Elem()), base.V[0], off), T: u.Elem()}
+		lv := env.tr.loadLeaves(env.curState(), shape(u.Elem()), base.V[0], off)
+		env.loaded(shape(u.Elem()), lv)
+		return EVal{V: lv, T: u.Elem()}
 	case *types.Array:
 		n := nleaves(u.Elem())
 		if idx.C != nil {
@@ -860,7 +896,13 @@ func (env *Env) callExpr(x *ast.CallExpr) EVal {
 				rng = f.And(f.ULe(lo.V[0], bv), f.ULt(bv, hi.V[0]))
 			}
 		}
+		var pend []*Term
+		sub.pending = &pend
 		body := sub.eval(x.Args[3])
+		if len(pend) > 0 {
+			// facts about values loaded under the binder hold for every index in range (heap well-formedness)
+			env.tr.assume(f.Forall([]*Term{bv}, f.Implies(rng, f.And(pend...))), "well-formedness of values loaded under a quantifier")
+		}
 		if name == "forall" {
 			return env.boolVal(f.Forall([]*Term{bv}, f.Implies(rng, body.V[0])))
 		}
